@@ -332,7 +332,7 @@ impl VM {
                     let left = self.pop();
                     let result = match left.tag() {
                         Type::Float => unsafe { Object::float(-left.as_f64_unchecked(), gc) },
-                        Type::Int => Object::int(-left.as_int()),
+                        Type::Int => Object::checked_int(left.as_int().checked_neg())?,
                         _ => {
                             return Err(Error::TypeError(format!(
                                 "kan objecten met type {} niet omdraaien",
